@@ -79,3 +79,19 @@ impl Expiration for usize {
         usize::MAX
     }
 }
+
+/// Read-only structural snapshot of an arena-backed tree (verification hook, off by default).
+#[cfg(feature = "verif-hooks")]
+pub mod verif {
+    #[derive(Debug, Clone, PartialEq, Eq)]
+    pub struct VerifSnapshot {
+        /// root slot or `EMPTY_REF`
+        pub root: u32,
+        /// per slot: `[parent, left, right]`
+        pub links: Vec<[u32; 3]>,
+        /// per slot: colour is red
+        pub red: Vec<bool>,
+        /// the free list, in stack order
+        pub unused: Vec<u32>,
+    }
+}
